@@ -7,7 +7,7 @@ if ! git apply --check "$patch" 2>/dev/null; then echo "PATCH DOES NOT APPLY: $p
 git apply "$patch"
 cd /verif
 for c in "$@"; do
-  out=$(VERIF_SEED=${VERIF_SEED:-20260925} ./check "$c" --tier ${TIER:-quick} 2>&1 | grep -v GC_LOCK)
+  out=$(VERIF_EVIDENCE_DIR=/tmp/mutant-evidence VERIF_SEED=${VERIF_SEED:-20260925} ./check "$c" --tier ${TIER:-quick} 2>&1 | grep -v GC_LOCK)
   rc=$?
   echo "== $c: $(echo "$out" | grep -c '^VIOLATION') violation line(s); $(echo "$out" | grep 'theorems checked' | sed 's/.*: //')"
   echo "$out" | grep '^VIOLATION' | head -4
